@@ -26,7 +26,7 @@ import (
 func init() {
 	register(&Check{ID: "C16", Level: "fault_enumeration",
 		Rule: "exchanges through upstream.NewUpstream(\"udp://127.0.0.1:p\" | \"127.0.0.1:p\" | dial_addr with an unresolvable / dead URL host) against a fake server on one port; every exchange has a unique random question (name, type, class) and one script cell " +
-			"{udp: tc|ok|silent} x {tcp: ok|refuse|silent|garbage|close|slow (reply 700 ms after a 250-500 ms deadline)|okfin (reply, then FIN: later TCP legs meet a dead pooled connection)} (all 21 cells, equally often), a series of 70 failing TCP legs followed by a healthy one, 12-32 concurrent callers, context deadlines 400-1000 ms against silent legs; plus a sequential series of TC=0 exchanges on a fresh upstream " +
+			"{udp: tc|ok|silent} x {tcp: ok|refuse|silent|garbage|close|slow (reply 700 ms after a 250-500 ms deadline)|okfin (reply, then FIN: later TCP legs meet a dead pooled connection)} (all 21 cells, equally often), a series of 70 failing TCP legs followed by a healthy one, one question asked three times whose UDP replies are truncated / complete / truncated (TCP, no TCP, TCP again), 12-32 concurrent callers, context deadlines 400-1000 ms against silent legs; plus a sequential series of TC=0 exchanges on a fresh upstream " +
 			"after which the server must have accepted no TCP connection at all. One evaluation = one exchange. Distinct non-trivial cases = distinct tuples (address form, udp script, tcp script, qtype, qclass, outcome class, number of TCP arrivals of the question)",
 		Run: runC16})
 }
@@ -536,6 +536,7 @@ func runC16(c *Ctx) {
 	// sequential TC=0 series on a fresh upstream and server: no TCP connection at all
 	c16NoTCP(c)
 	c16AfterFailures(c)
+	c16Repeat(c)
 	c16Slow(c)
 	c.Ev.Set("race_reports_logged_not_judged_here", upRaceReports(c))
 }
@@ -711,4 +712,55 @@ func c16Slow(c *Ctx) {
 			}
 		}
 	}
+}
+
+// c16Repeat: one question asked three times through one udp upstream. The first UDP reply is
+// truncated (TCP exchange, its outcome returned), the second time the server's UDP reply is
+// complete (the truncation was a rate limiter's slip, or the record set shrank): it is returned as
+// received and nothing goes over TCP; the third UDP reply is truncated again: TCP again. Every
+// exchange is decided by the UDP reply to its own query, not by what happened to the question before.
+func c16Repeat(c *Ctx) {
+	e, err := c16NewEnv("listen")
+	if err != nil {
+		c.Inconclusive("C16 setup: " + err.Error())
+		return
+	}
+	defer e.close()
+	n := c.N(12, 120)
+	for i := 0; i < n && !c.Seen("repeat:tcp-attempt-without-tc") && !c.Seen("repeat:no-tcp-retry-after-tc"); i++ {
+		r := gen.New(c.Seed, "c16-repeat", i)
+		first := c16Gen(r, 900000+i, "tc", "ok")
+		first.Form, first.DeadMs = gen.Pick(r, []string{"udp://", "bare"}), 2500
+		sameID := r.Bool()
+		var steps []*c16Ex
+		for k, udp := range []string{"tc", "ok", "tc"} {
+			ex := *first
+			ex.UDP = udp
+			if !sameID {
+				ex.CallerID = first.CallerID + uint16(k)
+			}
+			c16Do(e, &ex)
+			steps = append(steps, &ex)
+			c.Ev.Eval(1)
+			time.Sleep(5 * time.Millisecond)
+			lg := c16Collect(e)
+			nTCP, nUDP := len(lg.tcpQ[ex.Name]), len(lg.udpQ[ex.Name])
+			wantTCP := []int{1, 1, 2}[k]
+			w := c16Witness{Exchange: &ex, Rule: "repeat", TCPSeen: lg.tcpQ[ex.Name], UDPSent: lg.udpR[ex.Name]}
+			switch {
+			case !ex.Returned:
+				c.Inconclusive(fmt.Sprintf("repeat %d step %d: exchange failed: %s %s", i, k, ex.ErrClass, ex.Err))
+			case udp == "ok" && (nTCP > wantTCP || ex.Leg != "U"):
+				c.Violation("repeat:tcp-attempt-without-tc", fmt.Sprintf("question %q asked again after an earlier truncated reply: this time the server's UDP reply is complete (TC=0), yet the question arrived over TCP %d times in all (1 expected, from the first exchange), over UDP %d times, and the caller got the reply of leg %q", ex.Name, nTCP, nUDP, ex.Leg), w)
+			case udp == "tc" && (nTCP < wantTCP || ex.Leg != "T"):
+				c.Violation("repeat:no-tcp-retry-after-tc", fmt.Sprintf("question %q, exchange %d of 3: the UDP reply was truncated, the question has arrived over TCP %d times in all (%d expected), the caller got the reply of leg %q", ex.Name, k+1, nTCP, wantTCP, ex.Leg), w)
+			default:
+				c.Ev.Distinct("repeat", k, udp, sameID)
+				c.Ev.Count("repeat_steps_as_required", 1)
+				continue
+			}
+			break
+		}
+	}
+	c.Ev.Sample(map[string]any{"part": "repeat", "questions": n, "udp_replies": "TC, complete, TC"})
 }
